@@ -127,9 +127,20 @@ def run(ctx):
                            for x in an.instr_variant(cl, c.args[1])}
                     ctx.ob("C05.B2.scope-kind-closed-by-matching-instruction", tag + kind, got == want,
                            "Scope(%s) is closed by %s, expected %s" % (kind, sorted(got), sorted(want)), cl.loc)
+                # sibling agreement: the scope walk and the jump-target search of Break/Continue look for the
+                # loop from the same end of the pending-block stack (the innermost one)
+                dirs = {"close_scopes_up_to_loop": scan_direction(prog, [cl] + prog.closures_of(cl.path), None)}
+                for v in ("Break", "Continue"):
+                    dirs[v] = scan_direction(prog, [cs], regs[v])
+                ctx.ob("C05.B2.scope-walk-and-jump-target-agree-on-the-loop", tag + "pending_block scan direction",
+                       len(set(dirs.values())) == 1 and "reverse" in dirs.values(),
+                       "pending blocks are searched for the enclosing loop in these directions: %s — break/continue "
+                       "jump to the innermost loop, so the scopes to close are those above the innermost loop" % dirs,
+                       cl.loc)
                 # the walk stops at the innermost loop and emits nothing when there is none
-                stops = any(flow.cond_of(cl, bb).kind == "discr" and flow.cond_of(cl, bb).adt == PEND
-                            for bb in cl.reachable if cl.term(bb)["k"] == "switch")
+                stops = any(flow.cond_of(g_, bb).kind == "discr" and flow.cond_of(g_, bb).adt == PEND
+                            for g_ in [cl] + prog.closures_of(cl.path)
+                            for bb in g_.reachable if g_.term(bb)["k"] == "switch")
                 ctx.ob("C05.B2.scope-walk-stops-at-loop", tag + CLOSE, stops, "", cl.loc)
             else:
                 ctx.ob("C05.B2.loop-control-closes-scopes-before-jump", tag + "close_scopes_up_to_loop", False,
@@ -178,6 +189,43 @@ def run(ctx):
         # ---- B4
         check_with_execution_state(ctx, prog, tag)
     ctx.sample({"summaries": {k.split("::")[-1]: repr(v) for k, v in list(an.summaries.items())[:40] if v and v.key() != State().key()}})
+
+
+def scan_direction(prog, fns, region):
+    """how a piece of code walks `self.pending_block`: 'reverse' when the iterator over it is reversed (or an
+    r-search is used), 'forward' when it is searched from the front, 'none' when it is not walked"""
+    found = set()
+    for f in fns:
+        for c in f.calls():
+            if region is not None and f.kind != "closure" and c.bb not in region:
+                continue
+            n = c.name
+            if not c.args:
+                continue
+            # receiver chain must start at pending_block
+            from_pb = False
+            for o in flow.origins(f, c.args[0], through_calls=lambda k: 0 if (
+                    k.name.endswith("::iter") or k.name.endswith("::iter_mut") or k.name.endswith("::rev")
+                    or k.name.endswith("::into_iter") or k.name.endswith("::deref") or k.name.endswith("::deref_mut")
+                    or k.name.endswith("::index") or k.name.endswith("::enumerate")) else None):
+                if "pending_block" in o.proj:
+                    from_pb = True
+            if not from_pb:
+                continue
+            last = n.split("::")[-1]
+            if last in ("rev", "rposition", "rfind", "next_back", "rfold", "last"):
+                found.add("reverse")
+            elif last in ("position", "find", "find_map", "any", "all", "first"):
+                # forward search unless applied on a Rev adaptor
+                recv_ty = f.locals[op_place(c.args[0])["l"]]["s"] if op_place(c.args[0]) else ""
+                found.add("reverse" if "Rev<" in recv_ty else "forward")
+    if "forward" in found and "reverse" not in found:
+        return "forward"
+    if "reverse" in found and "forward" not in found:
+        return "reverse"
+    if not found:
+        return "none"
+    return "mixed"
 
 
 def check_parser_resets(ctx, prog, tag, an):
@@ -261,6 +309,9 @@ def check_vm_pairs(ctx, prog, tag):
         f = prog.fn(fpath)
         opens = f.calls_to(op)
         closes = [c.bb for c in f.calls_to(cl)]
+        if op.endswith("::incr_depth"):
+            writers = {g.path for g, _, w, _ in query.field_accessors(prog, "minijinja::vm::context::Context", "outer_stack_depth") if w}
+            closes += [c.bb for c in f.calls() if c.name in writers and not c.name.endswith("::incr_depth")]
         if not opens:
             if prog.has_fn(op):
                 ctx.ob("C05.B3.vm-pair-present", "%s%s|%s" % (tag, fpath.split("::")[-1], op.split("::")[-1]), False,
